@@ -293,7 +293,7 @@ fn finish(o: &Opts, prop: &str, mut rep: Report, cases: Vec<String>) -> Report {
     rep
 }
 
-fn value_stream(rng: &mut Rng, fm: &Fm, n: usize, thorough: bool) -> Vec<Narsese> {
+pub fn value_stream(rng: &mut Rng, fm: &Fm, n: usize, thorough: bool) -> Vec<Narsese> {
     let g = term_gen_for(fm, if thorough { 6 } else { 4 }, if thorough { 5 } else { 4 });
     let mut out = vec![];
     // prefixed atoms with numeric names as whole terms / bare judgements (back-off between budget bracket and variable prefix)
@@ -310,6 +310,33 @@ fn value_stream(rng: &mut Rng, fm: &Fm, n: usize, thorough: bool) -> Vec<Narsese
             out.push(Narsese::Sentence(Sentence::Question(t.clone(), Stamp::Eternal)));
             out.push(Narsese::Task(Task::new(Sentence::Goal(t, Truth::Empty, Stamp::Eternal), Budget::Empty)));
         }
+    }
+    // a bare placeholder directly before / after every copula (the one atom whose name may be empty)
+    for k in 21..30 {
+        let a = g.atom(rng);
+        let t = g.term_of(rng, 3, k);
+        let cs = t.get_components();
+        let _ = cs;
+        let (l, r) = (Term::Placeholder, a.clone());
+        let mk = |x: Term, y: Term| match k {
+            21 => Term::new_inheritance(x, y),
+            22 => Term::new_similarity(x, y),
+            23 => Term::new_implication(x, y),
+            24 => Term::new_equivalence(x, y),
+            25 => Term::new_implication_predictive(x, y),
+            26 => Term::new_implication_concurrent(x, y),
+            27 => Term::new_implication_retrospective(x, y),
+            28 => Term::new_equivalence_predictive(x, y),
+            _ => Term::new_equivalence_concurrent(x, y),
+        };
+        out.push(Narsese::Term(mk(l.clone(), r.clone())));
+        out.push(Narsese::Sentence(Sentence::Judgement(mk(r, l), Truth::Empty, Stamp::Eternal)));
+    }
+    // one wide value: > 128 non-atomic components in one compound (depth counters, recursion guards)
+    {
+        let items: Vec<Term> = (0..140).map(|i| if i % 2 == 0 { Term::new_set_extension(vec![Term::new_word(format!("w{}", i))]) } else { Term::new_inheritance(Term::new_word(format!("s{}", i)), Term::new_word("p")) }).collect();
+        out.push(Narsese::Term(Term::new_product(items.clone())));
+        out.push(Narsese::Sentence(Sentence::Question(Term::new_conjunction(items), Stamp::Eternal)));
     }
     // every constructor on top, as term / sentence / task
     for k in 0..30 {
@@ -919,6 +946,14 @@ pub fn run_c10(o: &Opts) -> Report {
             (format!("{l}S{sp}{}{sp}P{r}", st.copula_equivalence_retrospective), format!("{l}P{sp}{}{sp}S{r}", st.copula_equivalence_predictive)),
             (format!("{}0007", e.atom.prefix_interval), format!("{}7", e.atom.prefix_interval)),
         ];
+        // the placeholder as an operand of the derived copulas (its name is empty: the copula follows the prefix directly)
+        let ph = e.atom.prefix_placeholder;
+        let mut eqs = eqs;
+        eqs.push((format!("{l}{ph}{sp}{}{sp}P{r}", st.copula_instance), format!("{l}{xl}{ph}{xr}{sp}{}{sp}P{r}", st.copula_inheritance)));
+        eqs.push((format!("{l}{ph}{sp}{}{sp}P{r}", st.copula_property), format!("{l}{ph}{sp}{}{sp}{il}P{ir}{r}", st.copula_inheritance)));
+        eqs.push((format!("{l}{ph}{sp}{}{sp}P{r}", st.copula_instance_property), format!("{l}{xl}{ph}{xr}{sp}{}{sp}{il}P{ir}{r}", st.copula_inheritance)));
+        eqs.push((format!("{l}{ph}{sp}{}{sp}P{r}", st.copula_equivalence_retrospective), format!("{l}P{sp}{}{sp}{ph}{r}", st.copula_equivalence_predictive)));
+        eqs.push((format!("{l}S{sp}{}{sp}{ph}{r}", st.copula_instance), format!("{l}{xl}S{xr}{sp}{}{sp}{ph}{r}", st.copula_inheritance)));
         let eqs: Vec<(String, String)> = eqs.iter().cloned().chain(eqs.iter().map(|(a, b)| (a.replace(sp, ""), b.replace(sp, "")))).collect();
         for (a, b) in eqs {
             let ra = cx.parse_case(&fm, &a);
@@ -1130,7 +1165,7 @@ pub fn item_order_inputs(e: &'static EFmt) -> Vec<String> {
 
 /// the same text with non-space Unicode whitespace at its edges (the enum parser skips only the format's space)
 pub fn edge_whitespace(s: &str) -> Vec<String> {
-    vec![format!("{}\n", s), format!("\t{}", s), format!("{}\r\n", s), format!("\u{3000}{}", s), format!("{}\u{a0}", s), format!(" {} ", s)]
+    vec![format!("{}\n", s), format!("\t{}", s), format!("{}\r\n", s), format!("\u{3000}{}", s), format!("{}\u{a0}", s), format!(" {} ", s), format!("\u{feff}{}", s), format!("{}\u{feff}", s)]
 }
 
 // -------------------------------------------------------------------------------------------
@@ -1385,6 +1420,21 @@ pub fn run_c15(o: &Opts) -> Report {
             let c = v.clone().try_into_task().is_ok();
             if (a, b, c) != (kind == 0, kind == 1, kind == 2) || (v.is_term(), v.is_sentence(), v.is_task()) != (kind == 0, kind == 1, kind == 2) {
                 cx.fail("wrappers", "exactly the matching accessor succeeds", canon_narsese(&v), format!("{}", kind), format!("{:?}", (a, b, c)), None);
+            }
+            // the std conversions (TryFrom<Narsese> for Term / Sentence / Task) obey the same table
+            {
+                let t = Term::try_from(v.clone()).is_ok();
+                let s2 = Sentence::try_from(v.clone()).is_ok();
+                let k2 = Task::try_from(v.clone()).is_ok();
+                if (t, s2, k2) != (kind == 0, kind == 1, kind == 2) {
+                    cx.fail("wrappers", "TryFrom<Narsese>: exactly the matching conversion succeeds", canon_narsese(&v), format!("{}", kind), format!("{:?}", (t, s2, k2)), None);
+                }
+                if let Narsese::Sentence(sv) = &v {
+                    let as_task = Narsese::Task(sv.clone().cast_to_task());
+                    if Sentence::try_from(as_task.clone()).is_ok() || as_task.clone().try_into_sentence().is_ok() || Term::try_from(as_task).is_ok() {
+                        cx.fail("wrappers", "a task with an empty budget is still a task: non-matching accessors / conversions must fail", canon_narsese(&v), "Err".into(), "Ok".into(), None);
+                    }
+                }
             }
             let back: Narsese = match v.clone() {
                 Narsese::Term(t) => Narsese::from_term(t).try_into_term().map(Narsese::Term).unwrap_or(Narsese::Term(Term::Placeholder)),
